@@ -282,6 +282,14 @@ class C11(EvalFamProp):
     def gen_cases(self, rng, n, tier):
         cases = EvalFamProp.gen_cases(self, rng, n, tier)
         r2 = random.Random(rng.random())
+        CODE = ['q = [1, 2]\nq', "d = {'a': [1], 'b': {}}\nd", 'x = []\nx.append([0])\nx', 'y = {}\ny["l"] = [k]\ny',
+                'def mk():\n    return [[1], {"z": 2}]\nmk()']
+        for i in range(max(3, len(cases) // 15)):
+            items = [(nm, Stext(r2.choice(CODE), 'eval')) for nm in r2.sample(['a', 'b', 'c', 'e'], r2.choice([1, 2]))] + [('k', S(5))]
+            if r2.random() < 0.5:
+                items = [('n', M(items[:1])), ('l', Q([Stext(r2.choice(CODE), 'eval')]))] + items[1:]
+            r2.shuffle(items)
+            cases[(7 * i + 3) % len(cases)] = {'docs': [{'raw': M(items)}], 'style': ['flow', 0, 0]}
         for c in cases:
             if r2.random() < self.P_ALIAS:
                 for _ in range(3):
@@ -339,6 +347,10 @@ class C11(EvalFamProp):
             B([], [['getattr', 'ayns'], ['setattr', 'ayns', 0], ['getitem', 'ayns'], ['getattr', 'ayns'], ['delattr', 'ayns'], ['delattr', 'ayns'],
                    ['getattr', '_source'], ['delattr', '_user_data'], ['getattr', '_user_data']], [cfgdoc]),
         ] + [
+            # evaluated code that builds containers (several statements): outside the model's restricted !eval (comparison skipped),
+            # the re-evaluation / mutation checks apply (seeded change S5-C11: a cached namespace handed the same objects out again)
+            D(M({'k': S(3), 'e': Stext('q = [1, 2]\nq', 'eval'), 'm': Stext("d = {'a': [k], 'b': {}}\nd", 'eval')})),
+            D(M({'n': M({'e': Stext('import collections\nq = collections.OrderedDict(a=[1])\ndict(q)', 'eval')}), 'l': Q([Stext('x = []\nx.append([0])\nx', 'eval')])})),
             D(M({'_w': S(3), 'a': M({'_u': S(1), 'v': S(True), 'n': S(None), 'f': S(1.5), 'e': Sempty()}), 'l': Q([M({}), Q([])])})),   # D02
             D(M({'r': Stext('bar.z', 'xref'), 'c': Stext('T(bar)', 'eval'), 'bar': M({'z': S(1), 'y': S(2)})})),                        # D20
             D(M({'c': Stext('T(d, S1, k)', 'eval'), 'k': S(12), 'd': M({'a': M({}), 'c': Stext('c', 'xref')})})),                        # D21 (known finding)
@@ -416,6 +428,13 @@ class C11(EvalFamProp):
             mutate(cfg)
             if dump_node(src) != before:
                 checks.append('mutating the evaluated config changed the source tree')
+            # ... nor what the source evaluates to (objects built by evaluated code must be fresh in every evaluation)
+            try:
+                again = Config(src, eval_ctx=EvalContext(eval_symbols=w.syms))
+                if renumber(conv_val(again, w, {})) != first:
+                    checks.append('after mutating the evaluated config, evaluating the kept source gives a different result')
+            except Exception as e:  # noqa
+                checks.append(f'after mutating the evaluated config, evaluating the kept source raises {type(e).__name__}')
             obs['checks'] = checks
         return run_case(case['docs'], self.WORLD, tuple(case.get('style', ['flow', 0, 0])), extra=extra)
 
